@@ -113,6 +113,9 @@ Record ev := mkEv { et : Z; ea : nat; ek : Z; eop : nat; ev1 : Z; ev2 : Z; ev3 :
 
 Record case := mkCase
   { cscripts : list (list op);
+    ccache : bool;    (* the calls go through a cache in front of the barrier (collection.Cache.Take,
+                         stores/cache node Take): a result may also be the cached value of the latest
+                         completed load of the key; only prop_ok is evaluated *)
     cforced : bool;
     csteps : list ostep;
     clog : list ev }.
@@ -206,12 +209,39 @@ Definition may_share (c : case) (e x : ev) : bool :=
   | _, _, _ => false
   end.
 
+(* cache in front of the barrier: the value of a load x of the same key that completed before
+   the call was invoked, provided no later load of the key completed and the key was not
+   deleted (event kind 5, key in v1) in between *)
+Definition cache_hit (c : case) (e x : ev) : bool :=
+  let l := clog c in
+  match find_ev l 2 (ea x) (eop x), find_ev l 0 (ea e) (eop e), op_at c (ea x) (eop x) with
+  | Some fe, Some inv, Some ox =>
+    (et fe <? et inv)%Z &&
+    negb (existsb (fun y => match op_at c (ea y) (eop y) with
+                            | Some oy => same_key ox oy && (ek y =? 2)%Z && (et fe <? et y)%Z && (et y <? et inv)%Z
+                            | None => false end) l) &&
+    negb (existsb (fun d => (ek d =? 5)%Z && (ev1 d =? okey ox)%Z && (et fe <? et d)%Z && (et d <? et inv)%Z) l)
+  | _, _, _ => false
+  end.
+
 Definition ret_ok (c : case) (e : ev) : bool :=
+  if (ev3 e =? -2)%Z then true else
   match op_at c (ea e) (eop e) with
   | None => false
   | Some o =>
     match ogrp o with
     | GSF =>
+      if ccache c && negb (ev2 e =? 0)%Z then
+        (* a failed load is not cached and its value is dropped: only the error is shared *)
+        existsb (fun x => match op_at c (ea x) (eop x) with
+                          | Some o' => same_key o o' && (oerr o' =? ev2 e)%Z && may_share c e x
+                          | None => false end) (execs c)
+      else if ccache c then
+        existsb (fun x => match op_at c (ea x) (eop x) with
+                          | Some o' => same_key o o' && (oval o' =? ev1 e)%Z && (oerr o' =? 0)%Z &&
+                                       (may_share c e x || cache_hit c e x)
+                          | None => false end) (execs c)
+      else
       existsb (fun x => match op_at c (ea x) (eop x) with
                         | Some o' => same_key o o' && (oval o' =? ev1 e)%Z && (oerr o' =? ev2 e)%Z && may_share c e x
                         | None => false end) (execs c)
